@@ -197,6 +197,10 @@ func unhexStr(s string) []byte {
 	return b
 }
 
+// State is the canonical projection of the oracle state carried by every observation line
+// (hx.Stater): block time, feeds, the feeds' request contexts, the feed-state index, feed values.
+func (r *R) State(ctx sdk.Context) string { return r.state(ctx) }
+
 func (r *R) state(ctx sdk.Context) string {
 	k := r.env.Oracle
 	var fs, cs, vs, run, pau []string
